@@ -60,9 +60,155 @@ def facts_of(f, cond, polarity):
     return [("true" if pol else "false", n, None)]
 
 
+# ---------------------------------------------------------------------------------------------- guard helpers
+# A guard helper is a function whose only effect is to throw unless a condition over its parameters and *this holds
+# (`void ensure(n) const { if (!can_read(n)) throw malformed_packet(); }`).  A call to one is the same guard as the
+# `if` written out at the call site: the helper's condition is grafted into the caller (parameters -> arguments,
+# this -> receiver) and holds wherever the call dominates.
+_GH = {}
+_GRAFT = {}
+_NEXT_ID = [100000000]
+MUTATING = ("CompoundAssignOperator", "CXXNewExpr", "CXXDeleteExpr", "LambdaExpr")
+
+
+def guard_helper(db, callee):
+    """[(condition node, polarity)] that hold on every normal return of `callee`, or None"""
+    if db is None or not callee:
+        return None
+    key = (id(db), callee)
+    if key in _GH:
+        return _GH[key]
+    _GH[key] = None
+    h = db.fn(callee)
+    if h is None or not h.get("body") or not h.get("cfg") or h.get("virtual") or h.get("kind") in ("ctor", "dtor"):
+        return None
+    from . import cfg as _cfg
+    nodes = list(facts.fn_nodes(h))
+    if len(nodes) > 60:
+        return None
+    under_throw = set()
+    for n in nodes:
+        if n["k"] == "CXXThrowExpr":
+            under_throw.update(x["id"] for x in facts.walk(n))
+    pvars = set(p.get("var") for p in h.get("params", ()))
+    for n in nodes:
+        if n["id"] in under_throw:
+            continue
+        k = n["k"]
+        if k in MUTATING or (k == "BinaryOperator" and n.get("op") == "=") or (k == "UnaryOperator" and n.get("op") in ("++", "--")) or \
+                k in ("ForStmt", "WhileStmt", "DoStmt", "CXXForRangeStmt", "DeclStmt", "CXXTryStmt"):
+            return None
+        if k in ("CallExpr", "CXXOperatorCallExpr", "CXXConstructExpr", "CXXTemporaryObjectExpr"):
+            if not (k == "CallExpr" and n.get("cname") == "__builtin_expect"):
+                return None
+        if k == "CXXMemberCallExpr" and not (n.get("callee") or "").endswith(" const"):
+            return None
+        if k == "DeclRefExpr" and n.get("var") is not None and n.get("var") not in pvars and not n.get("glob"):
+            return None
+    try:
+        g = _cfg.FnCFG(h)
+    except facts.AnalysisBroken:
+        return None
+    normal = [(b["id"], k_) for b in g.blocks.values() if b["id"] not in g.throws
+              for k_, s_ in enumerate(b["s"]) if s_ == g.exit]
+    if len(normal) != 1:
+        return None
+    pb, pk = normal[0]
+    gs = [(c, pol) for c, pol, _ in g.guards_at((pb, 0))]
+    b = g.blocks[pb]
+    if len(b["s"]) == 2 and b.get("cond") is not None and b.get("termk") != "SwitchStmt" and b["s"][0] != b["s"][1]:
+        c = g.idx.get(b["cond"])
+        if c is not None:
+            gs.append((c, pk == 0))
+    if not gs:
+        return None
+    _GH[key] = (h, gs)
+    return _GH[key]
+
+
+def graft(h, f, node, call):
+    """copy of helper node `node` that reads as an expression of caller f at `call`"""
+    from . import cfg as _cfg
+    pv = dict((p.get("var"), i) for i, p in enumerate(h.get("params", ())))
+    args = _cfg.args(call)
+    recv = _cfg.receiver(call) if call["k"] == "CXXMemberCallExpr" else None
+    ht, ft = h.get("_types"), f.get("_types")
+    tmap = {}
+
+    def ty(t):
+        if t is None or t < 0 or ht is ft:
+            return t
+        if t not in tmap:
+            ft.append(ht[t])
+            tmap[t] = len(ft) - 1
+        return tmap[t]
+
+    def cp(n):
+        if not isinstance(n, dict):
+            return n
+        if n["k"] == "DeclRefExpr" and n.get("var") in pv:
+            i = pv[n["var"]]
+            if i >= len(args):
+                raise KeyError("default argument")
+            return args[i]
+        if n["k"] == "CXXThisExpr":
+            if recv is None:
+                raise KeyError("no receiver")
+            return recv
+        m = dict(n)
+        _NEXT_ID[0] += 1
+        m["id"] = _NEXT_ID[0]
+        m["grafted"] = True
+        if "t" in m:
+            m["t"] = ty(m["t"])
+        if "c" in m:
+            m["c"] = [cp(c) for c in m["c"]]
+        return m
+    return cp(node)
+
+
+def call_guards(f, call, db=None):
+    """[(grafted condition, polarity)] established by a call to a guard helper ([] for any other call)"""
+    key = (id(f), call["id"])
+    if key in _GRAFT:
+        return _GRAFT[key]
+    out = []
+    if call["k"] in ("CXXMemberCallExpr", "CallExpr") and call.get("callee"):
+        db = db or facts.db_of(f)
+        gh = guard_helper(db, call["callee"])
+        if gh:
+            h, gs = gh
+            if h is not f:
+                try:
+                    out = [(graft(h, f, c, call), pol) for c, pol in gs]
+                except KeyError:
+                    out = []
+    _GRAFT[key] = out
+    return out
+
+
+def helper_calls(g):
+    """[(position, [(grafted condition, polarity)])] for the guard-helper calls of g's function"""
+    if getattr(g, "_ghcalls", None) is None:
+        res = []
+        for n in facts.fn_nodes(g.f):
+            if n["k"] in ("CXXMemberCallExpr", "CallExpr") and n.get("callee") and not n.get("ext"):
+                cg = call_guards(g.f, n)
+                if cg:
+                    p = g.pos(n)
+                    if p is not None:
+                        res.append((p, cg))
+        g._ghcalls = res
+    return g._ghcalls
+
+
 def guards_facts(g, pos):
-    """all atoms that hold at CFG position pos (from dominating branch edges)"""
+    """all atoms that hold at CFG position pos (from dominating branch edges and dominating guard-helper calls)"""
     out = []
     for cond, pol, blk in g.guards_at(pos):
         out += facts_of(g.f, cond, pol)
+    for p, cg in helper_calls(g):
+        if p != pos and g.before_on_all_paths(p, pos):
+            for c, pol in cg:
+                out += facts_of(g.f, c, pol)
     return out
